@@ -80,3 +80,45 @@ def parse_hex(out):
     if cur is not None:
         raise BadOutput("unterminated dump")
     return res
+
+
+# ---------------------------------------------------------------------------
+# Options that a command line may carry WITHOUT changing what the chosen mode does.  peltool picks one mode by a fixed
+# precedence; every mode option of lower precedence given on the same line is ignored, and --clean / --output-dir only
+# mean something to the two modes that write or delete (--file, --json).
+PRECEDENCE = ["-f", "-j", "-i", "--bmc-id", "--plid", "--src", "--src-exclude", "-l", "-n", "-a", "-d", "-D"]
+LONG = {"-f": "--file", "-j": "--json", "-i": "--id", "-l": "--list", "-n": "--show-pel-count", "-a": "--all-pels",
+        "-d": "--delete", "-D": "--delete-all"}
+
+
+def dominated_options(rng, mode, eid=0x50000001, plid=0x50000001, src="BD", excl=None, outdir=None, k=None,
+                      allow_clean=True):
+    """Extra arguments for a command line whose mode option is `mode`: lower-precedence mode options (with plausible
+    values) and, for the display modes, --clean / --output-dir.  The result of the run must be that of `mode` alone."""
+    lower = PRECEDENCE[PRECEDENCE.index(mode) + 1:]
+    if excl is None and "--src-exclude" in lower:
+        lower = [x for x in lower if x != "--src-exclude"]
+    picks = rng.sample(lower, min(len(lower), k if k is not None else rng.choice([1, 1, 2, 3])))
+    extra = []
+    for o in picks:
+        name = LONG[o] if o in LONG and rng.random() < 0.3 else o
+        if o == "-i":
+            extra += [name, "%08X" % eid]
+        elif o == "--bmc-id":
+            extra += [name, str(eid & 0xFFFF)]
+        elif o == "--plid":
+            extra += [name, "%08X" % plid]
+        elif o == "--src":
+            extra += [name, src]
+        elif o == "--src-exclude":
+            extra += [name, excl]
+        elif o == "-d":
+            extra += [name, "%08X" % eid]
+        else:
+            extra.append(name)
+    if allow_clean and mode not in ("-f", "-j") and rng.random() < 0.5:
+        extra.append(rng.choice(["-c", "--clean"]))
+    if mode != "-j" and outdir and rng.random() < 0.3:
+        extra += ["-o", outdir]
+    rng.shuffle(picks)
+    return extra
